@@ -55,8 +55,18 @@ pub fn special_strings() -> Vec<&'static str> {
     ]
 }
 
+/// a finite double with random bits (all exponents, subnormals, both signs)
+pub fn random_double(r: &mut Rng) -> f64 {
+    loop {
+        let x = f64::from_bits(r.next());
+        if x.is_finite() {
+            return x;
+        }
+    }
+}
+
 pub fn scalar(r: &mut Rng) -> Value {
-    match r.below(12) {
+    match r.below(14) {
         0 => json!(0),
         1 => json!(-1),
         2 => json!(7),
@@ -68,6 +78,8 @@ pub fn scalar(r: &mut Rng) -> Value {
         8 => json!(true),
         9 => Value::Null,
         10 => json!(1e21),
+        11 => json!(random_double(r)),
+        12 => json!((r.below(2_000_000) as f64 - 1_000_000.0) / 977.0),
         _ => Value::from(*r.pick(&special_strings())),
     }
 }
